@@ -62,3 +62,43 @@ int zv_cover_candidates(const void* samples, const size_t* sizes, unsigned nb, s
     }
     return njobs;
 }
+
+/* ---- round 2 ---- */
+zv_cres zv_cover_run(const void* samples, const size_t* sizes, unsigned nb, unsigned d, unsigned k, size_t cap,
+                     unsigned char* dict, int doBuild, unsigned begin, unsigned end) {
+    COVER_ctx_t ctx; zv_cres r; COVER_map_t map; ZDICT_cover_params_t p; size_t i, n;
+    memset(&r, 0, sizeof r); memset(&ctx, 0, sizeof ctx);
+    if (ZSTD_isError(COVER_ctx_init(&ctx, samples, sizes, nb, d, 1.0))) { r.err = 1; return r; }
+    n = ctx.suffixSize; r.nbDmers = n;
+    r.keys = (unsigned*)malloc((n + 1) * sizeof(unsigned)); r.fvals = (unsigned*)malloc((n + 1) * sizeof(unsigned));
+    r.fafter = (unsigned*)malloc((n + 1) * sizeof(unsigned));
+    for (i = 0; i < n; i++) { r.keys[i] = ctx.dmerAt[i]; r.fvals[i] = ctx.freqs[ctx.dmerAt[i]]; }
+    memset(&p, 0, sizeof p); p.k = k; p.d = d; p.splitPoint = 1.0;
+    if (!COVER_map_init(&map, k - d + 1)) { r.err = 3; COVER_ctx_destroy(&ctx); return r; }
+    if (doBuild) r.tail = COVER_buildDictionary(&ctx, ctx.freqs, &map, dict, cap, p);
+    else if (end > n || begin > end) r.err = 2;
+    else {
+        COVER_segment_t sg = COVER_selectSegment(&ctx, ctx.freqs, &map, begin, end, p);
+        r.seg.begin = sg.begin; r.seg.end = sg.end; r.seg.score = sg.score;
+    }
+    for (i = 0; i < n; i++) r.fafter[i] = ctx.freqs[ctx.dmerAt[i]];
+    COVER_map_destroy(&map);
+    COVER_ctx_destroy(&ctx);
+    return r;
+}
+
+size_t zv_lower_bound(const size_t* offs, size_t first, size_t count, size_t value) {
+    return (size_t)(COVER_lower_bound(offs + first, offs + first + count, value) - offs);
+}
+
+int zv_map_init_log(unsigned size) {
+    COVER_map_t map; int lg;
+    if (!COVER_map_init(&map, size)) return -1;
+    lg = (int)map.sizeLog;
+    COVER_map_destroy(&map);
+    return lg;
+}
+unsigned zv_map_hash(unsigned sizeLog, unsigned key) {
+    COVER_map_t map; memset(&map, 0, sizeof map); map.sizeLog = sizeLog;
+    return COVER_map_hash(&map, key);
+}
